@@ -14,6 +14,11 @@
 (*   roundtrip    : dec(enc(x)) = x                                        *)
 (*   sort         : a sorted permutation of the input, stable where said   *)
 (*   reader       : the concatenation of the chunks is the input           *)
+(*   writer       : a sink (io.Writer, csv.Writer) emits ONE count: the    *)
+(*                  weight of the items accepted before the first refusal, *)
+(*                  then the Error of the refused write / flush, else      *)
+(*                  Complete; a write-through sink hands its writer the    *)
+(*                  items up to the refused one and nothing afterwards     *)
 (*   no mutation  : inputs and delivered values unchanged at the end       *)
 (*   contract     : values, then one terminal; the source is released      *)
 (* Events: in(i,v) fx(v -> i, b ok) out(k,v) after(i,v) outafter(i,v)      *)
@@ -41,6 +46,12 @@ LiftOut(j) == IF j > Len(ins) THEN <<>>
 FirstFail == IF \E j \in 1..Len(ins) : ~F(j).ok THEN CHOOSE j \in 1..Len(ins) : ~F(j).ok /\ \A j2 \in 1..(j - 1) : F(j2).ok ELSE 0
 RECURSIVE FilterOut(_)
 FilterOut(j) == IF j > Len(ins) THEN <<>> ELSE (IF F(j).ok THEN <<ins[j]>> ELSE <<>>) \o FilterOut(j + 1)
+
+\* sinks: ins[j] = weight of item j (bytes of a chunk, 1 per CSV row, 0 for the final flush), fx[j].ok = the wrapped writer accepts it
+RECURSIVE SumTo(_)
+SumTo(j) == IF j <= 0 THEN 0 ELSE ins[j] + SumTo(j - 1)
+Accepted == IF FirstFail = 0 THEN SumTo(Len(ins)) ELSE SumTo(FirstFail - 1)
+Handed == IF FirstFail = 0 THEN SumTo(Len(ins)) ELSE SumTo(FirstFail)
 
 IsPerm(a, b) == /\ Len(a) = Len(b)
                 /\ \A x \in {a[j] : j \in 1..Len(a)} : Cardinality({j \in 1..Len(a) : a[j] = x}) = Cardinality({j \in 1..Len(b) : b[j] = x})
@@ -76,6 +87,10 @@ Step ==
           [] kind = "filter" -> outs = FilterOut(1) /\ term = "C"
           [] kind = "sort"   -> /\ IsPerm(outs, [j \in 1..Len(ins) |-> j]) /\ Sorted /\ (stable => Stable) /\ term = "C"
           [] kind = "reader" -> clen = slen /\ (clen = 0 \/ chash = shash) /\ term = "C"
+          [] kind = "writer" -> /\ outs = <<Accepted>>
+                                /\ term = (IF FirstFail = 0 THEN "C" ELSE "E")
+                                \* write-through sinks (hdr.b): the writer saw exactly the items up to the refused one, nothing after it
+                                /\ stable => (clen = Handed /\ clen = slen /\ (clen = 0 \/ chash = shash))
           [] OTHER -> term # "none"
      /\ PrintT(<<"ACCEPT", Ev.t>>)
      /\ UNCHANGED <<ins, fx, outs, keys, term, torn, clen, chash, slen, shash>>
